@@ -400,7 +400,18 @@ pub fn relpath() -> BoxedStrategy<String> {
 }
 
 pub fn artifacts(max: usize, two_digests: bool) -> BoxedStrategy<Artifacts> {
-    proptest::collection::btree_map(relpath(), digests(two_digests), 0..=max).boxed()
+    prop_oneof![
+        40 => proptest::collection::btree_map(relpath(), digests(two_digests), 0..=max),
+        // cardinality tail: many artifacts (programmatic names around a few generated ones)
+        1 => (proptest::collection::btree_map(relpath(), digests(two_digests), 0..=max), prop_oneof![Just(9usize), Just(17), Just(33), Just(65), Just(130), Just(300), Just(700), Just(1200)], digests(two_digests))
+            .prop_map(|(mut m, n, d)| {
+                for i in 0..n {
+                    m.insert(format!("vendor/dep{:04}", i), d.clone());
+                }
+                m
+            }),
+    ]
+    .boxed()
 }
 
 /// Strings for free-text fields.
